@@ -401,6 +401,14 @@ impl PageLockManager {
     pub fn stats(&self) -> &LockStats {
         &self.stats
     }
+
+    /// (page-lock entries, table-lock entries) currently held in the lock tables.
+    #[cfg(turdb_verif)]
+    pub fn verif_entry_counts(&self) -> (usize, usize) {
+        let pages = self.page_shards.iter().map(|s| s.locks.lock().len()).sum();
+        let tables = self.table_shards.iter().map(|s| s.locks.read().len()).sum();
+        (pages, tables)
+    }
 }
 
 #[cfg(test)]
